@@ -59,13 +59,53 @@ def project(d, n):
     return out
 
 
+LINE_SLOTS = ["a", "b"]      # in "lines" mode these model paths are the lines of one file `f`
+
+
+def slot_values(beh):
+    """per commit the value of each line slot, tracked from the changes (3-way for merges);
+    None if a slot would be conflicted (then the stack is only realised with one file per path)"""
+    vals = []
+    for i, parents in enumerate(beh["par"], start=1):
+        chg = beh["chgs"][i - 1] or {}
+        cur = {}
+        for q in LINE_SLOTS:
+            pv = [vals[p - 1][q] if p else 1 for p in parents]
+            if len(pv) == 1:
+                v = pv[0]
+            else:
+                anc = [set(), set()]
+                for k, p in enumerate(parents):
+                    st = [p]
+                    while st:
+                        c = st.pop()
+                        if c and c not in anc[k]:
+                            anc[k].add(c)
+                            st.extend(beh["par"][c - 1])
+                common = anc[0] & anc[1]
+                base = vals[max(common) - 1][q] if common else 1
+                if pv[0] == base:
+                    v = pv[1]
+                elif pv[1] == base or pv[0] == pv[1]:
+                    v = pv[0]
+                elif q in chg:
+                    v = None
+                else:
+                    return None
+            cur[q] = chg.get(q, v)
+        vals.append(cur)
+    return vals
+
+
 class Replayer:
     def __init__(self, seed, per_stack):
         self.seed, self.per_stack = seed, per_stack
         self.records = []
         self.commands = 0
 
-    def build(self, beh):
+    def build(self, beh, lines=None):
+        """lines = slot_values(beh): model paths a, b become the lines of one file f (a file whose lines
+        are attributed to different commits; all lines absent = the file is deleted)"""
         env = cd.Env()
         try:
             env.jj_ok(env.root, "git", "init", "repo")
@@ -73,7 +113,17 @@ class Replayer:
             for i, parents in enumerate(beh["par"], start=1):
                 env.jj_ok(w, "new", "-m", "c%d" % i, *[rev(p) for p in parents])
                 chg = beh["chgs"][i - 1] or {}
+                if lines is not None and (len(parents) > 1 or any(q in chg for q in LINE_SLOTS)):
+                    text = "".join("%s=v%d\n" % (q, lines[i - 1][q]) for q in LINE_SLOTS if lines[i - 1][q] != 1)
+                    fp = os.path.join(w, "f")
+                    if text:
+                        with open(fp, "w") as f:
+                            f.write(text)
+                    elif os.path.exists(fp):
+                        os.remove(fp)
                 for q, v in chg.items():
+                    if lines is not None and q in LINE_SLOTS:
+                        continue
                     p = os.path.join(w, q)
                     if v == 1:
                         if os.path.exists(p):
@@ -88,10 +138,17 @@ class Replayer:
             env.close()
             raise
 
-    def run_stack(self, idx, beh):
-        rng = random.Random("%s/%s" % (self.seed, idx))
+    def run_stack(self, idx, beh, lines_mode=False, merge_sources_first=False):
+        rng = random.Random("%s/%s/%s" % (self.seed, idx, lines_mode))
         n = len(beh["par"])
+        lines = slot_values(beh) if lines_mode else None
         cmds = sorted(beh["cmds"].values(), key=lambda c: (c["k"], c["x"], c["sel"]))
+        if lines is not None:
+            # paths a and b are one file now: only commands without a path selection
+            cmds = [c for c in cmds if c["k"] in ("squash", "absorb")]
+        forced = [c for c in cmds if merge_sources_first and c["k"] in ("absorb", "squash")
+                  and (len(beh["par"][c["x"] - 1]) > 1 or any(len(beh["par"][p - 1]) > 1 for p in beh["par"][c["x"] - 1] if p))]
+        cmds = [c for c in cmds if c not in forced]
         # a sample that always contains each kind when available
         byk = {}
         for c in cmds:
@@ -102,7 +159,10 @@ class Replayer:
         rest = [c for c in cmds if c not in chosen]
         rng.shuffle(rest)
         chosen += rest[:max(0, self.per_stack - len(chosen))]
-        env = self.build(beh)
+        chosen = forced + chosen
+        if not chosen:
+            return
+        env = self.build(beh, lines)
         try:
             w = env.path("repo")
             d0 = env.dump(w, paths=True)
@@ -131,7 +191,7 @@ class Replayer:
                     gone = [i + 1 for i, a in enumerate(after) if a is None]
                     rawsame = all(a is None or a[0] != b[0] or a[1] == b[1] for a, b in zip(after, before))
                     self.records.append({
-                        "op": "stack", "stack": idx, "par": beh["par"], "chgs": beh["chgs"], "k": c["k"], "x": c["x"],
+                        "op": "stack", "stack": idx, "lines": lines is not None, "par": beh["par"], "chgs": beh["chgs"], "k": c["k"], "x": c["x"],
                         "sel": c["sel"], "argv": argv, "rc": rc,
                         "before": [b[0] for b in before], "after": [a[0] if a else "" for a in after],
                         "gone": gone, "rawsame": rawsame, "changed_exp": c["changed"],
@@ -171,6 +231,15 @@ def run(ctx):
     vf.build("jjcli")
     vf.build("dump")
     rep = Replayer(ctx.seed, per_stack=ctx.q(5, 8))
+    # directed stacks: squash / absorb whose source is a merge commit (or its child), with descendants
+    # and the working copy above, realised both with one file per path and with a file whose lines
+    # are attributed to different ancestors
+    directed, r = vf.tlc_generate("MC_Stack", "MC_Stack_directed", timeout=300)
+    ctx.add_mc(r, "generator:directed")
+    directed.sort(key=lambda b: json.dumps([b["par"], b["chgs"]], sort_keys=True))
+    jobs = [(1000 + 2 * i + m, b, bool(m)) for i, b in enumerate(directed) for m in (0, 1)]
+    with ThreadPoolExecutor(max_workers=ctx.q(8, 12)) as ex:
+        list(ex.map(lambda j: rep.run_stack(j[0], j[1], lines_mode=j[2], merge_sources_first=True), jobs))
     t0 = time.time()
     budget, n_min = ctx.q(60, 330), ctx.q(8, 40)
 
@@ -178,14 +247,14 @@ def run(ctx):
         i, b = ib
         if i >= n_min and time.time() - t0 > budget:
             return False
-        rep.run_stack(i, b)
+        rep.run_stack(i, b, lines_mode=(i % 3 == 2))
         return True
     with ThreadPoolExecutor(max_workers=ctx.q(8, 12)) as ex:
         done = sum(1 for ok in ex.map(one, enumerate(uniq[:ctx.q(40, 1500)])) if ok)
     trace = ctx.path("c09.ndjson")
     with open(trace, "w") as f:
         for rec in rep.records:
-            f.write(json.dumps({k: v for k, v in rec.items() if k not in ("chgs", "argv", "err", "stack")}) + "\n")
+            f.write(json.dumps({k: v for k, v in rec.items() if k not in ("chgs", "argv", "err", "stack", "lines")}) + "\n")
     j = vf.tlc_judge("Trace_Stack", trace, chunk=500)
     ctx.cov["states"] += j["states"]
     ctx.cov["transitions"] += j["transitions"]
@@ -209,6 +278,8 @@ def run(ctx):
         k = "%s/%s/%s" % (r["k"], "merge" if any(len(p) > 1 for p in r["par"]) else "linear", "ok" if r["rc"] == 0 else "refused")
         kinds[k] = kinds.get(k, 0) + 1
     ctx.cov["command_kinds"] = kinds
+    ctx.cov["records_line_files"] = sum(1 for r in rep.records if r["lines"])
+    ctx.cov["records_merge_source"] = sum(1 for r in rep.records if len(r["par"][r["x"] - 1]) > 1 and r["rc"] == 0)
     ctx.cov["divergent_records"] = [rep.records[i]["argv"] for i in j["diverges"][:5]]
     ctx.cov["rule"] = ("records = commands run on TLC-generated stacks (random stacks from MC_Stack_gen, a seeded sample of "
                        "their applicable commands with every kind present); non-trivial = distinct (stack, command) pairs "
